@@ -129,9 +129,7 @@ func scanSecret(v rt.Value, depth int, seen map[*rt.Table]bool) bool {
 }
 
 func runOne(funcs []fnRec, f *fnRec, required rt.ComplianceFlags, tp tuple, sp int, luaCtx bool) (o runObs) {
-	if !sent.snap().equal(sent.pristine) {
-		sent.rebuild()
-	}
+	sent.ensure()
 	mc := newMachine()
 	closed := false
 	defer func() {
@@ -178,8 +176,12 @@ func runOne(funcs []fnRec, f *fnRec, required rt.ComplianceFlags, tp tuple, sp i
 	}
 	bargs := append([]rt.Value{rt.IntValue(int64(sp)), fv, tgt, env.tbl}, rest...)
 
-	drainChildren()
-	s0 := sent.snap()
+	// set-up that may itself touch the sentinel: producer calls, snippets
+	s0 := sent.pristine
+	if f.acc.kind == accCall || f.acc.kind == accSnippet {
+		drainChildren()
+		s0 = sent.snap()
+	}
 	ru0 := childUsage()
 
 	o.final, o.gopanic = mc.enter(luaCtx, required, bargs)
@@ -189,6 +191,7 @@ func runOne(funcs []fnRec, f *fnRec, required rt.ComplianceFlags, tp tuple, sp i
 	closed = true
 	o.children, o.stuck = drainChildren()
 	s1 := sent.snap()
+	sent.note(s1)
 	o.diff = s0.diff(s1, false)
 	o.diffGranted = s0.diff(s1, true)
 
